@@ -1955,6 +1955,151 @@ Section Proofs.
     rewrite E. now left.
   Qed.
 
+  (** ** There is always an outcome (the theorems above are not vacuous) *)
+
+  Lemma lin_outcomes_ex hits : exists o, In o (lin_outcomes hits).
+  Proof.
+    destruct hits as [|h1 [|h2 t]].
+    - exists SNone. now left.
+    - exists (SFound (fst h1) (snd h1)). now left.
+    - exists SErr. unfold lin_outcomes. apply in_or_app. right. apply in_or_app. left. now left.
+  Qed.
+
+  Lemma comb_outcomes_ex loc tail reg ms : exists o, In o (comb_outcomes loc tail reg ms).
+  Proof.
+    unfold PCR0Search.comb_outcomes.
+    destruct (comb_from (S comb_maxd) 0 loc tail reg ms) as [|h hs].
+    - exists SNone. now left.
+    - exists (SFound (fst h) (snd h)). apply in_flat_map. exists h. split; [now left|].
+      apply in_map_iff. exists h. split; [reflexivity|now left].
+  Qed.
+
+  Lemma acm_outcomes_ex cf loc tail reg ms : exists o, In o (acm_outcomes cf loc tail reg ms).
+  Proof.
+    unfold PCR0Search.acm_outcomes.
+    destruct (lin_outcomes_ex (lin_hits cf loc tail reg ms)) as (o & Ho).
+    destruct o as [|v s|].
+    - destruct (comb_enabled st) eqn:Ec.
+      + destruct (comb_outcomes_ex loc tail reg ms) as (o' & Ho'). exists o'.
+        apply in_flat_map. exists SNone. split; [exact Ho|]. exact Ho'.
+      + exists SNone. apply in_flat_map. exists SNone. split; [exact Ho|]. now left.
+    - exists (SFound v s). apply in_flat_map. exists (SFound v s). split; [exact Ho|now left].
+    - exists SErr. apply in_flat_map. exists SErr. split; [exact Ho|now left].
+  Qed.
+
+  Lemma try_outcomes_ex cf loc comb : exists o, In o (try_outcomes cf loc comb).
+  Proof.
+    destruct (head_cases comb) as [Hp|(m & en' & tail & reg0 & Een & Em)].
+    - rewrite (try_outcomes_plain cf loc comb Hp).
+      destruct (order_search loc _); eexists; now left.
+    - rewrite (try_outcomes_data cf loc comb m en' tail reg0 Een Em).
+      destruct (acm_outcomes_ex cf loc tail reg0 (map (@m_dig D) (m :: en'))) as (o & Ho).
+      eexists. apply in_map. exact Ho.
+  Qed.
+
+  Lemma worker_events_ex cf loc : forall combs, exists e, In e (worker_events cf loc combs).
+  Proof.
+    induction combs as [|c t (e & He)]; [exists None; now left|].
+    cbn [PCR0Search.worker_events]. destruct (try_outcomes_ex cf loc c) as (o & Ho).
+    destruct (is_event o) eqn:Ev.
+    - exists (Some (c, o)). apply in_or_app. left. apply in_map. apply filter_In. tauto.
+    - exists e. apply in_or_app. right.
+      assert (Et : existsb is_tnone (try_outcomes cf loc c) = true).
+      { apply existsb_exists. exists o. split; [exact Ho|]. destruct o; try discriminate. reflexivity. }
+      rewrite Et. exact He.
+  Qed.
+
+  Lemma forallb_false {A} (p : A -> bool) : forall l, forallb p l = false -> exists x, In x l /\ p x = false.
+  Proof.
+    induction l as [|a l IH]; cbn [forallb]; [discriminate|].
+    destruct (p a) eqn:E; cbn [andb].
+    - intro H. destruct (IH H) as (x & Hx & Hp). exists x. split; [now right|exact Hp].
+    - intros _. exists a. split; [now left|exact E].
+  Qed.
+
+  Lemma level_outcomes_ex cf loc ws : exists o, In o (level_outcomes cf loc ws).
+  Proof.
+    unfold PCR0Search.level_outcomes.
+    destruct (forallb (existsb is_none) (map (worker_events cf loc) ws)) eqn:E.
+    - exists JNext. apply in_or_app. right. apply in_or_app. left. now left.
+    - apply forallb_false in E as (ev & Hev & Hn).
+      pose proof Hev as Hev'. apply in_map_iff in Hev' as (cs & <- & Hcs).
+      destruct (worker_events_ex cf loc cs) as (e & He).
+      destruct e as [[c o]|].
+      + pose proof (worker_events_in cf loc cs c o He) as (_ & _ & Hevt).
+        assert (Hin : In (Some (c, o)) (concat (map (worker_events cf loc) ws)))
+          by (apply in_concat; eauto).
+        destruct o as [|reg sw|]; [discriminate| |].
+        * eexists. apply in_or_app. left. apply in_flat_map. eexists. split; [exact Hin|]. now left.
+        * exists JErr. apply in_or_app. left. apply in_flat_map. eexists. split; [exact Hin|]. now left.
+      + exfalso. assert (existsb is_none (worker_events cf loc cs) = true)
+          by (apply existsb_exists; exists None; split; [exact He|reflexivity]).
+        congruence.
+  Qed.
+
+  Lemma job_levels_ex cf loc : forall fuel k, exists o, In o (job_levels fuel k cf loc) /\ o <> JNext.
+  Proof.
+    induction fuel as [|f IH]; intro k; cbn [PCR0Search.job_levels].
+    - exists JNone. split; [now left|discriminate].
+    - destruct (level_workers cf k) as [ws| | |]; try (exists JPanic; split; [now left|discriminate]).
+      destruct (level_outcomes_ex cf loc ws) as (o' & Ho').
+      destruct (IH (S k)) as (o & Ho & Hne).
+      destruct o'; try (eexists; split; [apply in_flat_map; eexists; split; [exact Ho'|now left]|discriminate]).
+      exists o. split; [|exact Hne]. apply in_flat_map. exists JNext. split; [exact Ho'|exact Ho].
+  Qed.
+
+  Theorem outcomes_nonempty cf : exists o, In o (outcomes cf).
+  Proof.
+    destruct (job_levels_ex cf 0 kmax 0) as (o0 & H0 & N0).
+    destruct (job_levels_ex cf 3 kmax 0) as (o3 & H3 & N3).
+    fold (job cf 0) in H0. fold (job cf 3) in H3. unfold PCR0Search.outcomes.
+    set (J0 := job cf 0) in *. set (J3 := job cf 3) in *.
+    assert (F0 : forall r, In (JFound r) J0 -> exists o, In o
+              (j_founds J0 ++ j_founds J3 ++ (if j_nores J0 && j_nores J3 then [FNone] else [])
+               ++ (if j_hang J0 || j_hang J3 then [FHang] else [])
+               ++ (if j_panic J0 || j_panic J3 then [FPanic] else []))).
+    { intros r Hr. exists (FSome r). apply in_or_app. left. now apply in_j_founds. }
+    assert (F3 : forall r, In (JFound r) J3 -> exists o, In o
+              (j_founds J0 ++ j_founds J3 ++ (if j_nores J0 && j_nores J3 then [FNone] else [])
+               ++ (if j_hang J0 || j_hang J3 then [FHang] else [])
+               ++ (if j_panic J0 || j_panic J3 then [FPanic] else []))).
+    { intros r Hr. exists (FSome r). apply in_or_app. right. apply in_or_app. left. now apply in_j_founds. }
+    assert (Hh : j_hang J0 || j_hang J3 = true -> exists o, In o
+              (j_founds J0 ++ j_founds J3 ++ (if j_nores J0 && j_nores J3 then [FNone] else [])
+               ++ (if j_hang J0 || j_hang J3 then [FHang] else [])
+               ++ (if j_panic J0 || j_panic J3 then [FPanic] else []))).
+    { intro E. exists FHang. apply in_or_app. right. apply in_or_app. right. apply in_or_app. right.
+      apply in_or_app. left. rewrite E. now left. }
+    assert (Hp : j_panic J0 || j_panic J3 = true -> exists o, In o
+              (j_founds J0 ++ j_founds J3 ++ (if j_nores J0 && j_nores J3 then [FNone] else [])
+               ++ (if j_hang J0 || j_hang J3 then [FHang] else [])
+               ++ (if j_panic J0 || j_panic J3 then [FPanic] else []))).
+    { intro E. exists FPanic. apply in_or_app. right. apply in_or_app. right. apply in_or_app. right.
+      apply in_or_app. right. rewrite E. now left. }
+    assert (Hn : j_nores J0 && j_nores J3 = true -> exists o, In o
+              (j_founds J0 ++ j_founds J3 ++ (if j_nores J0 && j_nores J3 then [FNone] else [])
+               ++ (if j_hang J0 || j_hang J3 then [FHang] else [])
+               ++ (if j_panic J0 || j_panic J3 then [FPanic] else []))).
+    { intro E. exists FNone. apply in_or_app. right. apply in_or_app. right. apply in_or_app. left.
+      rewrite E. now left. }
+    assert (C : forall J o, In o J -> o <> JNext ->
+              (exists r, In (JFound r) J) \/ j_nores J = true \/ j_hang J = true \/ j_panic J = true).
+    { intros J o Ho Hne. destruct o.
+      - right. left. apply existsb_exists. eexists. split; [exact Ho|reflexivity].
+      - left. eauto.
+      - right. left. apply existsb_exists. eexists. split; [exact Ho|reflexivity].
+      - congruence.
+      - right. right. left. apply existsb_exists. eexists. split; [exact Ho|reflexivity].
+      - right. right. right. apply existsb_exists. eexists. split; [exact Ho|reflexivity]. }
+    destruct (C J0 o0 H0 N0) as [(r & Hr)|[E0|[E0|E0]]]; [now apply (F0 r)| | |].
+    - destruct (C J3 o3 H3 N3) as [(r & Hr)|[E3|[E3|E3]]]; [now apply (F3 r)| | |].
+      + apply Hn. now rewrite E0, E3.
+      + apply Hh. rewrite E3. apply orb_true_r.
+      + apply Hp. rewrite E3. apply orb_true_r.
+    - apply Hh. now rewrite E0.
+    - apply Hp. now rewrite E0.
+  Qed.
+
 End Proofs.
 
 (** * Side conditions are satisfiable *)
